@@ -212,7 +212,17 @@ func (m *Muxer) isAnimated() bool {
 
 // needsVP8X returns true if the file requires the extended format header.
 func (m *Muxer) needsVP8X() bool {
-	return m.isAnimated() || m.iccData != nil || m.exifData != nil || m.xmpData != nil
+	if m.isAnimated() || m.iccData != nil || m.exifData != nil || m.xmpData != nil {
+		return true
+	}
+	// A lossy frame supplied with its ALPH chunk prefix needs the extended
+	// layout (VP8X + ALPH + VP8): the simple layout cannot carry alpha.
+	for _, f := range m.frames {
+		if alphaData, _ := splitAlphaAndBitstream(f.data); alphaData != nil {
+			return true
+		}
+	}
+	return false
 }
 
 // Assemble writes the complete WebP file to w.
@@ -380,6 +390,9 @@ func (m *Muxer) assembleExtended(w io.Writer) error {
 			if anmfPayload%2 != 0 {
 				riffPayload64++
 			}
+		} else if alphaData, bitstream := splitAlphaAndBitstream(f.data); alphaData != nil {
+			riffPayload64 += uint64(chunkTotalSize(uint32(len(alphaData))))
+			riffPayload64 += uint64(chunkTotalSize(uint32(len(bitstream))))
 		} else {
 			riffPayload64 += uint64(chunkTotalSize(uint32(len(f.data))))
 		}
@@ -444,6 +457,14 @@ func (m *Muxer) assembleExtended(w io.Writer) error {
 	for _, f := range m.frames {
 		if animated {
 			if err := m.writeANMFChunk(w, f); err != nil {
+				return err
+			}
+		} else if alphaData, bitstream := splitAlphaAndBitstream(f.data); alphaData != nil {
+			// Still image with alpha: ALPH chunk, then the VP8 chunk.
+			if err := writeDataChunk(w, FourCCALPH, alphaData); err != nil {
+				return err
+			}
+			if err := writeDataChunk(w, detectBitstreamType(bitstream), bitstream); err != nil {
 				return err
 			}
 		} else {
